@@ -11,7 +11,18 @@ use toolbox_rs::max_flow::{MaxFlow, ResidualEdgeData};
 
 pub type E = (usize, usize, i32);
 
+/// a (permuted) source or sink that occurs in no edge and carries the largest id would lie outside the
+/// graph as the Rust sizes it (largest id + 1): keep it in range with a zero-capacity edge t -> s
+fn in_range(s: usize, t: usize, mut edges: Vec<E>) -> Vec<E> {
+    let n = num_nodes(&edges);
+    if s >= n || t >= n {
+        edges.push((t, s, 0));
+    }
+    edges
+}
+
 pub fn case_from(family: &str, s: usize, t: usize, edges: &[E]) -> Case {
+    let edges = &in_range(s, t, edges.to_vec());
     let mut c = Case::new(family);
     c.op(format!("st {s} {t}"));
     for (u, v, w) in edges {
